@@ -46,6 +46,11 @@ pub assume_specification[ char::is_ascii_alphabetic ](c: &char) -> (r: bool) ens
 pub assume_specification[ char::is_ascii_alphanumeric ](c: &char) -> (r: bool) ensures r == ascii_alnum(*c);
 pub assume_specification[ char::is_ascii_control ](c: &char) -> (r: bool) ensures r == ascii_ctrl(*c);
 pub assume_specification[ char::is_ascii_punctuation ](c: &char) -> (r: bool) ensures r == ascii_punct(*c);
+// ASCII case mapping: a function of the character (no relation to the Unicode mapping sp_lower is assumed)
+pub uninterp spec fn sp_ascii_lower(c: char) -> char;
+pub uninterp spec fn sp_ascii_upper(c: char) -> char;
+pub assume_specification[ char::to_ascii_lowercase ](c: &char) -> (r: char) ensures r == sp_ascii_lower(*c);
+pub assume_specification[ char::to_ascii_uppercase ](c: &char) -> (r: char) ensures r == sp_ascii_upper(*c);
 pub assume_specification[ char::is_alphanumeric ](c: char) -> (r: bool) ensures r == sp_alnum(c);
 pub assume_specification[ char::is_control ](c: char) -> (r: bool) ensures r == sp_ctrl(c);
 pub assume_specification[ char::is_alphabetic ](c: char) -> (r: bool) ensures r == sp_alpha(c);
